@@ -18,7 +18,7 @@ RECURSIVE Beh(_, _, _)
 Beh(o, rr, n) ==
   IF n = 0 THEN {<<>>}
   ELSE UNION {IF o # DynVal /\ (~Applies(call, o.ty) \/ Contradictory(o, rr, call)) THEN {<<call>>}
-              ELSE {<<call>> \o b : b \in Beh(o, IF o.st = "unk" /\ o # DynVal THEN Meet(rr, call) ELSE rr, n - 1)}
+              ELSE {<<call>> \o b : b \in Beh(o, IF o # DynVal THEN NextRange(o, rr, call) ELSE rr, n - 1)}
               : call \in Menu(o.ty)}
 OSeq == SetToSeq(Origs)
 ShardI == EnvInt("VSHARDI", 0)
